@@ -1,6 +1,7 @@
 """C19 — spox interop, eager_propagate and user-defined dtypes obey the same laws."""
 from __future__ import annotations
 
+import json
 import random
 
 from props import c01
@@ -58,6 +59,10 @@ def run(ctx):
         sh = ops.rand_shape(rnd, 2, 0.1)
         vals = {"a": ops.tensor(rnd, d, sh, "small"), "b": ops.tensor(rnd, d, sh, "small")}
         cases.append({"id": f"E3-{i}", "kind": "propagate3", "values": vals, "lazy_sets": [[], ["a"], ["a", "b"]]})
+    for i in range(12 * scale):
+        sh = [rnd.choice([1, 2, 3])]
+        vals = {"a": ops.tensor(rnd, "int64", sh, "small"), "b": {"dtype": "float64", "shape": sh, "data": [ops.fhex(rnd.choice([1.5, 200.0, -3.0, 7.25])) for _ in range(sh[0])]}}
+        cases.append({"id": f"E4-{i}", "kind": "propagate4", "values": vals, "lazy_sets": [[], ["a"], ["a", "b"]]})
     for i in range(60 * scale):
         r = rnd.randint(1, 2)
         sh = [rnd.choice([1, 2, 3]) for _ in range(r)]
@@ -95,6 +100,19 @@ def run(ctx):
                         ctx.finding({"func": "eager_propagate", "kind": "lazy-has-value", "lazy": key}, f"wrapped user function with placeholder arguments {key}: output {j} reports a value", {"case": c, "outcome": rr})
                 if not rr["inputs_still_lazy"]:
                     ctx.finding({"func": "eager_propagate", "kind": "placeholder-gained-value", "lazy": key}, f"a placeholder argument of the wrapped function gained a value", {"case": c, "outcome": rr})
+        elif c["kind"] == "propagate4":
+            for key, rr in o.items():
+                if key == "oracle":
+                    continue
+                lazy = [] if key == "-" else key.split(",")
+                for j, nm in enumerate(["struct output assembled in non-declaration order", "plain output after it"]):
+                    if json.dumps(o["oracle"][j], sort_keys=True) != json.dumps(rr["model"][j], sort_keys=True) and (j == 0 or ops.cmp_arrays(o["oracle"][j], rr["model"][j], 1e-9, 1e-12)):
+                        ctx.finding({"func": "eager_propagate", "kind": "value", "lazy": key, "fn": "user_fn4"}, f"wrapped user function, placeholders {key}: exported {nm} differs from the expected composition", {"case": c, "outcome": rr, "oracle": o["oracle"]})
+                    v = rr["values"][j]
+                    if not lazy and (v is None or (json.dumps(o["oracle"][j], sort_keys=True) != json.dumps(v, sort_keys=True) and (j == 0 or ops.cmp_arrays(o["oracle"][j], v, 1e-9, 1e-12)))):
+                        ctx.finding({"func": "eager_propagate", "kind": "eager-value", "lazy": key, "fn": "user_fn4"}, f"wrapped user function, data-holding arguments: {nm} reports {str(v)[:100]}", {"case": c, "outcome": rr, "oracle": o["oracle"]})
+                    if lazy and v is not None and j == 0:
+                        ctx.finding({"func": "eager_propagate", "kind": "lazy-has-value", "lazy": key, "fn": "user_fn4"}, f"wrapped user function with placeholder arguments {key}: {nm} reports a value", {"case": c, "outcome": rr})
         elif c["kind"] == "propagate3":
             for key, rr in o.items():
                 if key == "oracle":
